@@ -27,8 +27,18 @@ go build ./internal/controller/ ./internal/fans/ ./internal/curves/ ./internal/s
 env $DEMOENV go test -vet=off -count=1 -run "^($TESTS)\$" ./$DIR/ > /tmp/evalmut.$$.mut 2>&1; MUT=$?
 rm -f $DEMOFILE
 go test -vet=off -count=1 ./internal/... 2>&1 | grep -v "^ok\|no test files\|build failed\|gosensors\|sensors.h\|^ *[0-9]* |\|compilation terminated\|#include" > /tmp/evalmut.$$.suite; SUITE=$(grep -c "^--- FAIL\|^FAIL.*[0-9]s$\|^panic" /tmp/evalmut.$$.suite)
-if [ $SUITE -ne 0 ]; then   # the repository's own timing-sensitive tests (internal/curves) flake under load: one retry
-  go test -vet=off -count=1 ./internal/... 2>&1 | grep -v "^ok\|no test files\|build failed\|gosensors\|sensors.h\|^ *[0-9]* |\|compilation terminated\|#include" > /tmp/evalmut.$$.suite; SUITE=$(grep -c "^--- FAIL\|^FAIL.*[0-9]s$\|^panic" /tmp/evalmut.$$.suite)
+if [ $SUITE -ne 0 ]; then
+  # the repository's own timing-sensitive tests (internal/curves TestPidCurve*) flake under load:
+  # re-run the failing packages alone, up to three times
+  PKGS=$(grep "^FAIL.*[0-9]s$" /tmp/evalmut.$$.suite | awk '{print $2}' | sort -u)
+  SUITE=0
+  for pk in $PKGS; do
+    okp=0
+    for try in 1 2 3; do
+      if go test -vet=off -count=1 -p 1 $pk > /tmp/evalmut.$$.retry 2>&1; then okp=1; break; fi
+    done
+    [ $okp = 0 ] && SUITE=$((SUITE+1)) && cat /tmp/evalmut.$$.retry | grep "^--- FAIL" | head -3
+  done
 fi
 echo "demo on unchanged tree: exit $BASE (want 0); demo with change: exit $MUT (want !=0); existing suite failures with change: $SUITE (want 0)"
 [ $SUITE -ne 0 ] && cat /tmp/evalmut.$$.suite | head
